@@ -202,6 +202,16 @@ class DocGen:
             else:
                 items.append(Item("bind", (name,), (False,), self.leaf()))
             used.add(name)
+        # look-alike leaves: the same last segment and value under another root (`services.enable = true;
+        # programs.enable = true;`) — bindings that are equal by value but not the same binding
+        fams = [it for it in items if it.kind == "bind" and len(it.path) == 2 and isinstance(it.value, str)]
+        if attrpaths and fams and pool and r.random() < 0.3:
+            src = r.choice(fams)
+            other = pool.pop()
+            if other not in used:
+                used.add(other)
+                fam_roots.add(other)
+                items.insert(r.randrange(len(items) + 1), Item("bind", (other, src.path[1]), (False, False), src.value))
         # interleave: optionally move one family member to the end (non-adjacent family)
         if fam_roots and r.random() < 0.3 and len(items) > 2:
             idx = next((i for i, it in enumerate(items) if it.kind == "bind" and len(it.path) > 1), None)
